@@ -501,6 +501,16 @@ class FD:
             f = self.eval(e.func, env)
             if callable(f):
                 return f(*[self.eval(a, env) for a in e.args])
+        if isinstance(e.func, ast.Name):
+            # a first-class callable stand-in supplied by the resolver (class or function used as a value)
+            try:
+                f = self.eval(e.func, env)
+            except Inconclusive:
+                f = None
+            if getattr(f, '_fd_callable', False):
+                kwargs = {k.arg: self.eval(k.value, env) for k in e.keywords}
+                kwargs.update(star_kwargs)
+                return f(*[self.eval(a, env) for a in e.args], **kwargs)
         raise Inconclusive('fdeval: call of %s' % (name or ast.unparse(e.func)))
 
     def call_function(self, fn, args, kwargs=None, bound_self=None):
@@ -844,7 +854,7 @@ class FD:
 
 
 _BUILTIN_TYPES = {'int': int, 'float': float, 'str': str, 'bool': bool, 'list': list, 'tuple': tuple,
-                  'dict': dict, 'set': set}
+                  'dict': dict, 'set': set, 'frozenset': frozenset, 'complex': complex, 'bytes': bytes}
 
 
 class _Lit(ast.expr):
